@@ -193,6 +193,68 @@ def e2e(w, res, r, scratch):
     w.rules("imds", None)
 
 
+def background_tasks(args, scratch):
+    """layer 3: the real key keeper (short poll interval) against a mock host that answers with hostile documents, while local
+    clients keep notifying it through /provision; the task must keep polling (bounded progress: the status-request counter advances)"""
+    import os
+    from .. import wsmock
+    res = {"evaluations": 0, "nontrivial": [], "samples": [], "counts": {}, "violations": []}
+    r = common.rng("c13-bg", args["tier"])
+    key_dir = os.path.join(scratch, "keys")
+    ws = wsmock.WsMock("168.63.129.16", 80, rng=r, key_dir=key_dir)
+    ws.version = "1.0"; ws.state_v1 = "Wireserver"
+    # delay point inside update_provision_state (an existing await between two actor messages): the key-latch report takes 0-4 ms, as it
+    # does on a machine with slow storage
+    sh = shimmod.Shim(scratch + "/shim", runtime="multi:4", env={"GPA_VERIF_DELAY": "provision_update:1000:4000", "GPA_VERIF_DELAY_SEED": "5"})
+    try:
+        sh.call("init", log_dir=scratch + "/logs", log_level="Info")
+        sh.call("proxy_start", port=3080)
+        sh.call("key_keeper_start", base_url="http://168.63.129.16:80/", key_dir=key_dir, log_dir=scratch + "/logs", interval_ms=args["interval_ms"])
+        t0 = time.time()
+        while ws.latched is None and time.time() - t0 < 10:
+            time.sleep(0.02)
+        # all three subsystems ready: every later key-latch report rewrites the provision state files (a slower path inside the notify branch)
+        sh.call("prov", what="redirector_ready")
+        hostile = [{"kind": "body", "body": "é" * 3000, "ctype": "text/plain; charset=utf-8"}, {"kind": "body", "body": "{" * 5000}, {"kind": "status", "code": 500, "body": "x" * 100000},
+                   {"kind": "body", "body": '{"authorizationScheme":"Azure-HMAC-SHA256","keyDeliveryMethod":"http","version":"2.0","secureChannelEnabled":true,"authorizationRules":{"imds":{"defaultAccess":"allow","mode":"Bogus","id":"x"}}}'},
+                   {"kind": "body", "body": "\ufeff{}"}, {"kind": "reset"}, {"kind": "body", "body": "<xml/>", "ctype": "text/xml; charset=utf-16"}]
+        rounds = args["rounds"]
+        for i in range(rounds):
+            before = ws.status_count
+            if i % 3 == 0:
+                ws.fault("status", r.choice(hostile))
+            # notifications (clients calling /provision with the notify header cause them) aimed at the end of the poll interval,
+            # measured from the moment the host saw the previous status request, plus a few at random offsets
+            t_w = time.time()
+            while ws.status_count <= before and time.time() - t_w < 5:
+                time.sleep(0.0002)
+            before = ws.status_count
+            if i % 2 == 0:
+                time.sleep(max(0, args["interval_ms"] / 1000.0 - r.random() * 0.005))
+            else:
+                time.sleep(r.random() * args["interval_ms"] / 1000.0)
+            sh.call("notify_key_keeper")
+            res["evaluations"] += 1
+            t1 = time.time()
+            while ws.status_count <= before and time.time() - t1 < 5:
+                time.sleep(0.01)
+            ps = sh.panics()
+            if ps:
+                for pn in ps:
+                    res["violations"].append(["panic-at:key-keeper-task:%s" % (pn.get("location") or "?").split("/src/")[-1], {"panic": pn, "round": i}])
+                break
+            if ws.status_count <= before:
+                res["violations"].append(["key-keeper-stopped-polling-without-panic", {"round": i, "status_requests": ws.status_count}])
+                break
+            res["nontrivial"].append("bg-%d" % (i % 50))
+        res["counts"]["key_keeper_polls_observed"] = ws.status_count
+        res["counts"]["site:key_keeper_notify_path:reached"] = rounds
+        res["samples"].append({"layer": "background", "interval_ms": args["interval_ms"], "rounds": rounds})
+    finally:
+        ws.close(); sh.close()
+    return res
+
+
 def worker(args, scratch):
     r = common.rng("c13", args["shard"], args["tier"])
     res = {"evaluations": 0, "nontrivial": [], "samples": [], "counts": {}, "violations": []}
@@ -224,3 +286,4 @@ def run(tier, rep):
     args = [{"shard": 0, "tier": tier, "layer": "sites"}, {"shard": 1, "tier": tier, "layer": "e2e"}]
     for res in sandbox.run_many("vf.props.c13", "worker", args, workers=2, timeout=1500):
         rep.merge_worker(res)
+    rep.merge_worker(sandbox.run("vf.props.c13", "background_tasks", {"tier": tier, "interval_ms": 25, "rounds": 250 if tier == "quick" else 4000}, timeout=1500))
